@@ -58,6 +58,17 @@ NEXT Next
 CHECK_DEADLOCK FALSE
 """ + MC_INVARIANTS
 
+MC_CFG_REFINEROOT = """CONSTANT N = 3
+CONSTANT Machines = TRUE
+CONSTANT SelfLoops = FALSE
+CONSTANT RefineRoot = TRUE
+INIT Init
+NEXT Next
+CHECK_DEADLOCK FALSE
+INVARIANT FPSound
+INVARIANT FPComplete
+"""
+
 # every action of Dom_MC must be taken in the committed configuration
 MC_ACTIONS = ["PickFirst", "PickRest", "FPStart", "FPRefine", "FPDone", "NumStart", "NumDiscover",
               "NumFinish", "NumDone", "DFStart", "DFVisit", "DFDone", "ReachStart", "ReachRefine",
@@ -657,33 +668,48 @@ class Engine:
         thorough = ctx.tier == "thorough"
         signal.signal(signal.SIGALRM, _alarm)
         drv = Driver()
-        ctx.rule("M: Dom_MC enumerates every digraph on <=3 nodes (thorough: also 4 nodes without self loops) with all "
-                 "nodes reachable from the root and checks the laws of Dom.tla plus the algorithm machines (fixed point, "
+        ctx.rule("M: Dom_MC enumerates every digraph on <=3 nodes (thorough: also 4 nodes; machines without self loops, laws "
+                 "with) with all nodes reachable from the root and checks the laws of Dom.tla plus the algorithm machines (fixed point, "
                  "tree numbering, DF, reach, Lengauer-Tarjan) in every iteration order; E: for every graph of the work "
                  "list ppci's answers are recorded per clause (idom via cfg/lt/fixed point, dominates+strictly_dominates "
                  "on all pairs, tree intervals, tree children + bottom_up, df, calculate_dominators, post_dominates on all "
                  "pairs, immediate post-dominators, can_reach on all pairs) and judged by TLC against the path-based "
                  "definitions. Work list quick: all 39178 labelled digraphs on <=4 nodes (self loops included) for "
                  "idom/queries/intervals/tree/df, the loop-free ones plus one seeded self-loop variant each for the other "
-                 "clauses (exits {1,n}), 300 seeded CFGs of 5-10 nodes, CFGs of compiled C functions; thorough: every "
-                 "clause on all of them, all 5-node graphs up to isomorphism fixing the entry, seeded 6-8 and 9-14 node "
-                 "graphs. distinct = distinct (clause, implementation, graph, exit)")
+                 "clauses (exits {1,n}), 300 seeded CFGs of 5-10 nodes, CFGs of compiled C functions; thorough: can_reach/lt/"
+                 "intervals/tree on all of them too, all loop-free 5-node graphs up to isomorphism fixing the entry (seeded "
+                 "self loops), 8000 seeded 6-8 node and 1000 seeded 9-14 node graphs. Post-dominators: exit = node n "
+                 "whenever it is a sink (exhaustive up to renaming), exits with successors and entries with predecessors "
+                 "(fixed-point functions) exhaustive <=3 nodes and sampled above. distinct = distinct (clause, implementation, graph, exit)")
         ctx.assume("the harness' projection of ppci node objects to numbers 1..n and of answers to JSON is faithful")
         ctx.assume("nodes unreachable from the entry / unable to reach the exit, and can_reach(a,a) off a cycle, are "
                    "outside what the property defines and are not judged")
         if ctx.only is not None:
             return self.replay(ctx, drv)
         # ---- M ----
-        runs = [(3, "TRUE", "TRUE")] + ([(4, "TRUE", "FALSE")] if thorough else [])
+        runs = [(3, "TRUE", "TRUE")] + ([(4, "TRUE", "FALSE"), (4, "FALSE", "TRUE")] if thorough else [])
         for n, mach, loops in runs:
             res = ctx.tlc("Dom_MC", MC_CFG % (n, mach, loops), label="laws+machines N=%d selfloops=%s" % (n, loops),
                           workers=WORKERS, heap="4g")
             for e in res.errors:
                 raise tlcmod.MachineryError("Dom_MC: the specification violates its own law %s: %s" % (e.name, e.text[:1500]))
             acts = tlcmod.action_coverage(res)
-            missing = [a for a in MC_ACTIONS if not acts.get("Dom_MC." + a)]
+            missing = [a for a in MC_ACTIONS if not acts.get("Dom_MC." + a)] if mach == "TRUE" else []
             if missing:
                 raise tlcmod.MachineryError("Dom_MC actions never taken: %s" % missing)
+        if thorough:
+            # the fixed-point iteration as fixed_point_dominator.py has it (the root is re-evaluated
+            # like any other node) is not sound: the model shows the defect listed in known.d/C25.json
+            res = ctx.tlc("Dom_MC", MC_CFG_REFINEROOT, label="fixed point with re-evaluated root (expected to fail)",
+                          workers=WORKERS, heap="4g", coverage=False)
+            bad = [e for e in res.errors if e.kind == "invariant" and e.name in ("FPSound", "FPComplete")]
+            if not bad:
+                raise tlcmod.MachineryError("Dom_MC with RefineRoot=TRUE was expected to violate FPSound")
+            st = bad[0].last
+            ctx.cov["tlc_runs"][-1]["errors"] = 0
+            ctx.cov["tlc_runs"][-1]["expected_counterexample"] = bad[0].name
+            ctx.note("model: re-evaluating the root in the fixed-point iteration violates %s, e.g. edges %s, root %s, "
+                     "direction %s" % (bad[0].name, st.get("edges"), st.get("rt"), st.get("dir")))
         # ---- E ----  staged, smallest graphs first; a grossly wrong implementation is reported
         # from the first stages instead of producing hundreds of thousands of error traces
         small = small_specs(ctx, thorough)
@@ -693,14 +719,9 @@ class Engine:
         four = [sp for sp in small if sp[0] == 4]
         stages.append(("4 nodes", lambda: record_many(four)))
         if thorough:
-            def five():
-                specs = five_node_specs(ctx)
-                self.five = len(specs)
-                return record_many(specs)
-
-            stages.append(("5 nodes up to isomorphism", five))
-            stages.append(("seeded 6-8 nodes", lambda: record_many(random_specs(ctx, 3000, 6, 8))))
-            stages.append(("seeded 9-14 nodes", lambda: record_many(random_specs(ctx, 500, 9, 14))))
+            stages.append(("5 nodes up to isomorphism", lambda: record_many(five_node_specs(ctx))))
+            stages.append(("seeded 6-8 nodes", lambda: record_many(random_specs(ctx, 8000, 6, 8))))
+            stages.append(("seeded 9-14 nodes", lambda: record_many(random_specs(ctx, 1000, 9, 14))))
         for label, make in stages:
             if len(ctx.violations) >= STOP_AFTER:
                 ctx.note("more than %d violations so far: the remaining stages (from '%s') were not run" % (STOP_AFTER, label))
